@@ -495,8 +495,136 @@ Proof.
     cbn [safe_from op_safe versions step andb]; rewrite ?Hi; unfold upd_inode; cbn [vdir inodes andb];
     rewrite ?Hn, ?name_eqb_refl, ?Hv; cbn [negb andb]; unfold clean; cbn [ilookup inodes]; rewrite ?N.eqb_refl; cbn [unsynced is_nil_b];
     (split; [reflexivity|]); (split; [unfold vread; cbn [ilookup inodes]; rewrite ?N.eqb_refl; cbn; rewrite ?app_nil_r; reflexivity|]).
-  - exists [Meta; Fsync i; Meta; Meta]. split; [reflexivity|]. cbn [run fold_left step]. rewrite Hi. unfold upd_inode, vread; cbn [vdir inodes ilookup]. rewrite N.eqb_refl. cbn. rewrite app_nil_r. auto.
-  - exists [Meta; Fsync i; Meta]. split; [reflexivity|]. cbn [run fold_left step]. rewrite Hi. unfold upd_inode, vread; cbn [vdir inodes ilookup]. rewrite N.eqb_refl. cbn. rewrite app_nil_r. auto.
-  - exists [Fsync i; Meta; Meta]. split; [reflexivity|]. cbn [run fold_left step]. rewrite Hi. unfold upd_inode, vread; cbn [vdir inodes ilookup]. rewrite N.eqb_refl. cbn. rewrite app_nil_r. auto.
-  - exists [Fsync i; Meta]. split; [reflexivity|]. cbn [run fold_left step]. rewrite Hi. unfold upd_inode, vread; cbn [vdir inodes ilookup]. rewrite N.eqb_refl. cbn. rewrite app_nil_r. auto.
+  all: match goal with |- exists p, ?tr = _ /\ _ => exists (removelast (removelast tr)) end;
+    cbn [removelast]; (split; [reflexivity|]); cbn [run fold_left step]; rewrite ?Hi; unfold upd_inode, vread;
+    cbn [vdir inodes ilookup]; rewrite ?N.eqb_refl; cbn; rewrite ?app_nil_r; auto.
 Qed.
+
+(* ------------------------------------------------------------------ AtomicWriteChown / AtomicWriteFile / AtomicWrite *)
+Lemma write_ops_eq : forall c i tmp t chunks,
+  write_ops c i tmp t chunks = Creat tmp :: map (Write i) chunks ++ commit_ops c i tmp t.
+Proof. intros; cbv [write_ops write_calls flat_map snd]. rewrite app_nil_r; reflexivity. Qed.
+
+Lemma run_writes : forall i chunks s c u,
+  ilookup (inodes s) i = Some (mkInode c u) ->
+  let s' := run s (map (Write i) chunks) in
+  vdir s' = vdir s /\ ddir s' = ddir s /\ pend s' = pend s /\ next s' = next s /\
+  ilookup (inodes s') i = Some (mkInode c (u ++ concat chunks)).
+Proof.
+  intros i; induction chunks as [|d chunks IH]; intros s c u H; cbv zeta; cbn [map run fold_left concat].
+  - rewrite app_nil_r; auto.
+  - fold (run (step s (Write i d)) (map (Write i) chunks)).
+    assert (St : step s (Write i d) = upd_inode s i (mkInode c (u ++ d))) by (cbn [step]; rewrite H; reflexivity).
+    rewrite St.
+    assert (H' : ilookup (inodes (upd_inode s i (mkInode c (u ++ d)))) i = Some (mkInode c (u ++ d))).
+    { cbn. rewrite N.eqb_refl; reflexivity. }
+    destruct (IH _ _ _ H') as (A & B & C & D & E).
+    rewrite A, B, C, D, E, <- app_assoc. cbn. auto.
+Qed.
+
+Lemma published_write : forall t s i d j, published t (step s (Write i d)) j = published t s j.
+Proof. intros; cbn [step]; destruct (ilookup (inodes s) i); reflexivity. Qed.
+
+Lemma safe_writes : forall t i chunks s, published t s i = false -> safe_from t s (map (Write i) chunks) = true.
+Proof.
+  intros t i; induction chunks as [|d chunks IH]; intros s H; [reflexivity|].
+  cbn [map safe_from op_safe]. rewrite H; cbn [negb andb]. apply IH. rewrite published_write; assumption.
+Qed.
+
+Lemma versions_writes : forall t i chunks s, versions t s (map (Write i) chunks) = [].
+Proof. intros t i; induction chunks as [|d chunks IH]; intros s; [reflexivity | cbn [map versions app]; apply IH]. Qed.
+
+(* MAIN 3: the operation list of AtomicWriteChown built from the generated call order, with snapdUnsafeIO false, for
+   any chunks, any chown/mtime request and any temp name different from the target: it respects the discipline, at
+   every crash point the target holds the complete old or the complete new content, and once it has returned only
+   the new content. *)
+Theorem atomic_write_safe : forall (t tmp : name) (s0 : st) (old : option bytes) (chunks : list bytes) (ch mt : bool),
+  init_ok t s0 old -> name_eqb tmp t = false ->
+  let tr := write_ops (mkCfg false ch mt) (next s0) tmp t chunks in
+  safe_from t s0 tr = true /\
+  versions t s0 tr = [Some (concat chunks)] /\
+  (forall p q, tr = p ++ q -> forall keep cut, In (crash_read (run s0 p) keep cut t) [old; Some (concat chunks)]) /\
+  (forall keep cut, crash_read (run s0 tr) keep cut t = Some (concat chunks)).
+Proof.
+  intros t tmp s0 old chunks ch mt HI Hn tr.
+  pose proof HI as (Hp0 & Hd0 & Hf0).
+  set (i := next s0) in *.
+  set (s1 := step s0 (Creat tmp)).
+  assert (E1 : ilookup (inodes s1) i = Some (mkInode [] [])) by (cbn; unfold i; rewrite N.eqb_refl; reflexivity).
+  destruct (run_writes i chunks s1 [] [] E1) as (Av & Ad & Ap & An & Ai). cbn [app] in Ai.
+  set (s2 := run s1 (map (Write i) chunks)) in *.
+  assert (Hv2 : dlookup (vdir s2) tmp = Some i) by (rewrite Av; cbn; rewrite name_eqb_refl; reflexivity).
+  destruct (commit_safe_shape t tmp s2 i _ ch mt Hn Hv2 Ai) as (C1 & C2 & pc & C3 & C4 & C5). cbn [synced unsynced app] in C2, C5.
+  assert (Pub : published t s1 i = false).
+  { unfold published; cbn [s1 step pend ddir]. rewrite Hp0; cbn [app existsb]. unfold points_to; cbn [fst snd]. rewrite Hn; cbn [andb orb].
+    destruct (dlookup (ddir s0) t) as [j|] eqn:Ej; [|reflexivity]. cbn in Hd0. destruct Hd0 as (c & Hc & _).
+    apply Hf0 in Hc. apply N.eqb_neq. unfold i; lia. }
+  assert (TR : tr = Creat tmp :: map (Write i) chunks ++ commit_ops (mkCfg false ch mt) i tmp t) by apply write_ops_eq.
+  assert (S : safe_from t s0 tr = true).
+  { rewrite TR. cbn [safe_from op_safe]. rewrite Hn; cbn [negb andb]. fold s1. rewrite safe_from_app.
+    rewrite safe_writes by exact Pub. exact C1. }
+  assert (Vs : versions t s0 tr = [Some (concat chunks)]).
+  { rewrite TR. rewrite versions_cons; cbn [op_versions app]. fold s1. rewrite versions_app, versions_writes. exact C2. }
+  split; [exact S | split; [exact Vs | split]].
+  - intros p q Hpq keep cut.
+    pose proof (shape_safe t s0 old tr HI S p q Hpq keep cut) as H.
+    destruct H as [H|H]; [left; exact H|]. right.
+    assert (I : In (crash_read (run s0 p) keep cut t) (versions t s0 tr)) by (rewrite Hpq, versions_app; apply in_or_app; left; exact H).
+    rewrite Vs in I. exact I.
+  - intros keep cut.
+    assert (TR2 : tr = (Creat tmp :: map (Write i) chunks ++ pc) ++ Rename tmp t :: [FsyncDir (fst t)]).
+    { rewrite TR, C3. cbn [app]. rewrite <- app_assoc. reflexivity. }
+    assert (R : run s0 (Creat tmp :: map (Write i) chunks ++ pc) = run s2 pc).
+    { cbn [run fold_left]. fold s1. fold (run s1 (map (Write i) chunks ++ pc)). rewrite run_app. reflexivity. }
+    rewrite TR2.
+    rewrite (success_is_durable t s0 old (Creat tmp :: map (Write i) chunks ++ pc) [FsyncDir (fst t)] tmp i HI).
+    + rewrite R. exact C5.
+    + rewrite <- TR2. exact S.
+    + rewrite R. exact C4.
+    + reflexivity.
+    + cbn. rewrite N.eqb_refl. reflexivity.
+Qed.
+
+(* the hypotheses are satisfiable, and without the file fsync (what snapdUnsafeIO = true would do) the same call
+   order is NOT crash safe: a torn file can appear under the target name *)
+Definition ex_t : name := (0, 0).
+Definition ex_tmp : name := (0, 1).
+Definition ex_s0 : st := init_st [(ex_t, [111; 108; 100])].
+Definition ex_chunks : list bytes := [[110; 101]; [119; 33]].
+
+Lemma ex_init_ok : init_ok ex_t ex_s0 (Some [111; 108; 100]).
+Proof.
+  split; [reflexivity | split].
+  - cbn. exists [111; 108; 100]. split; [reflexivity | left; reflexivity].
+  - intros i nd H. destruct i as [|q]; [cbv; reflexivity | cbn in H; discriminate].
+Qed.
+
+Theorem no_fsync_torn : exists p q keep cut,
+  write_ops (mkCfg true false false) (next ex_s0) ex_tmp ex_t ex_chunks = p ++ q /\
+  crash_read (run ex_s0 p) keep cut ex_t = Some [110].
+Proof.
+  exists [Creat ex_tmp; Write 1 [110; 101]; Write 1 [119; 33]; Meta; Rename ex_tmp ex_t], [].
+  exists [false; false; true], (fun _ => 1%nat). split; vm_compute; reflexivity.
+Qed.
+
+(* AtomicRename (and so AtomicSymlink's second half) with snapdUnsafeIO false: renaming a fully synced file onto the
+   target respects the discipline and is followed by the fsync of the target's directory *)
+Theorem atomic_rename_safe : forall (t a : name) (s : st) (i : ino),
+  name_eqb a t = false -> dlookup (vdir s) a = Some i -> clean s i = true ->
+  let tr := rename_ops (mkCfg false false false) a t in
+  safe_from t s tr = true /\
+  exists q, tr = Rename a t :: q /\ existsb (is_fsyncdir (fst t)) q = true /\ existsb (is_rename_onto t) q = false.
+Proof.
+  intros t a s i Hn Ha Hc.
+  cbv [rename_ops rename_calls flat_map guard_on unsafe_io negb fst snd app andb].
+  destruct a as [a1 a2], t as [t1 t2]. cbn [fst snd] in *.
+  destruct (a1 =? t1) eqn:E; cbn [negb app safe_from op_safe andb step]; rewrite ?Hn, ?name_eqb_refl, ?Ha, ?Hc; cbn [negb andb].
+  - split; [reflexivity|]. eexists; split; [reflexivity|]. cbn [existsb is_fsyncdir is_rename_onto fst]. rewrite E. split; reflexivity.
+  - split; [reflexivity|]. eexists; split; [reflexivity|]. cbn [existsb is_fsyncdir is_rename_onto fst]. rewrite N.eqb_refl, orb_true_r. split; reflexivity.
+Qed.
+
+(* facts the translator checked on the source just now (it exits non-zero when one fails) *)
+Lemma source_shape_facts :
+  checkpoint_is_atomic_write_file = true /\ write_file_is_write_chown = true /\ commit_is_commit = true /\
+  tmp_is_target_plus_suffix_excl = true /\ unsafe_io_needs_test_binary = true.
+Proof. repeat split. Qed.
